@@ -626,6 +626,6 @@ PARTS = [
                     "blob:file", "blob:buffer", "blob:manager_file", "blob:manager_buffer", "declared:over_max",
                     "declared:minus", "declared:plus", "opened_after_win", "size_io_boundary",
                     "close_by_cancel", "close_by_handle", "write_on_closed_oserror")),
-    Part("big", lambda tier: case_strategy(big=True, tier=tier), run_case, 8, 150, quick_shards=4, thorough_shards=16,
+    Part("big", lambda tier: case_strategy(big=True, tier=tier), run_case, 25, 600, quick_shards=4, thorough_shards=16,
          essential=("size_2MiB", "verified")),
 ]
